@@ -392,3 +392,117 @@ def match_payloads(db, pgn, rnd, n_random):
                 x = (x & ~m) | (rnd.choice(sorted(vals)) << o)
         out.append(x)
     return out
+
+
+# ----------------------------------------------------------------------------- database-only oracle (C01)
+SUPPORTED_STATIC = ("NUMBER", "MMSI", "PGN", "DURATION", "TIME", "DATE", "LOOKUP", "BITLOOKUP", "RESERVED", "SPARE", "BINARY", "STRING_FIX", "FLOAT", "INDIRECT_LOOKUP")
+
+
+def frac(v):
+    return Fraction(repr(v)) if isinstance(v, float) else Fraction(v)
+
+
+def oracle_check(db, sfx, p, fn, x):
+    """compare one real decode with what the DATABASE demands (no model involved). Returns None or (key, what)."""
+    static = all(("BitOffset" in f and "BitLength" in f and f["FieldType"] in SUPPORTED_STATIC) for f in p["Fields"])
+    enums = {e["Name"]: {it["Value"]: it["Name"] for it in e["EnumValues"]} for e in db.db["LookupEnumerations"]}
+    exp = []
+    in_range = True
+    for f in p["Fields"]:
+        if not ("BitOffset" in f and "BitLength" in f):
+            exp.append(None)
+            continue
+        n, o = f["BitLength"], f["BitOffset"]
+        bits = (x >> o) & ((1 << n) - 1)
+        t = f["FieldType"]
+        if t in ("NUMBER", "MMSI", "PGN", "DURATION", "TIME", "DATE") and "Resolution" in f and "RangeMin" in f:
+            signed = bool(f.get("Signed"))
+            z = bits - (1 << n) if signed and bits >> (n - 1) else bits
+            na = (n >= 2 and not signed and bits == (1 << n) - 1) or (n >= 4 and signed and z == (1 << (n - 1)) - 1)
+            if na:
+                exp.append(("na",))
+            else:
+                val = z * frac(f["Resolution"]) + frac(f.get("Offset", 0))
+                ok = frac(f["RangeMin"]) <= val <= frac(f["RangeMax"])
+                if not ok:
+                    in_range = False
+                exp.append(("num", val, ok, z))
+        elif t == "LOOKUP":
+            exp.append(("lookup", bits, enums.get(f.get("LookupEnumeration"), {}).get(bits)))
+        elif t in ("RESERVED", "SPARE"):
+            exp.append(("raw", bits))
+        else:
+            exp.append(None)
+    try:
+        m = fn(x)
+    except Exception as e:
+        if static and in_range and not any(f["FieldType"] == "FLOAT" for f in p["Fields"]):
+            bad = _first_offset_field(p)
+            if bad:
+                return (f"C01/offset-ignored/{p['PGN']}.{bad}", f"{sfx}: in-range payload {x} rejected ({type(e).__name__}: {e}); field {bad} has a database Offset the decoder ignores")
+            return (f"C01/in-range-rejected/{sfx}", f"{sfx}: every field of payload {x} is inside its database range but decoding raised {type(e).__name__}: {e}")
+        return None
+    if m is None:
+        return (f"C01/no-message/{sfx}", f"{sfx}: returned None for payload {x}")
+    if m.PGN != p["PGN"] or m.id != p["Id"] or m.description != p["Description"]:
+        return (f"C01/header/{sfx}", f"{sfx}: message names {m.PGN}/{m.id}/{m.description!r}")
+    ttl = p.get("TransmissionInterval")
+    if (m.ttl is None) != (ttl is None) or (ttl is not None and m.ttl.total_seconds() * 1000 != ttl):
+        return (f"C01/header-interval/{sfx}", f"{sfx}: ttl {m.ttl} vs database interval {ttl}")
+    if len(m.fields) != len(p["Fields"]):
+        return (f"C01/field-count/{sfx}", f"{sfx}: {len(m.fields)} fields, database has {len(p['Fields'])}")
+    for i, (f, e, mf) in enumerate(zip(p["Fields"], exp, m.fields)):
+        fid = ("reserved_" + str(f.get("BitOffset", ""))) if f["FieldType"] == "RESERVED" else f["Id"]
+        pq = mf.physical_quantities.name if mf.physical_quantities is not None else None
+        meta_ok = (mf.id == fid and mf.name == f["Name"] and mf.description == f.get("Description") and mf.unit_of_measurement == f.get("Unit")
+                   and pq == f.get("PhysicalQuantity") and mf.type.name == f["FieldType"] and bool(mf.part_of_primary_key) == bool(f.get("PartOfPrimaryKey", False)))
+        if not meta_ok:
+            return (f"C01/field-meta/{p['PGN']}.{f['Id']}", f"{sfx} field {i}: metadata {mf.id}/{mf.name}/{mf.unit_of_measurement}/{pq}/{mf.type.name}/{mf.part_of_primary_key} differs from the database")
+        if e is None:
+            continue
+        if e[0] == "na":
+            if mf.raw_value is not None or (mf.value is not None and f["FieldType"] not in ("TIME", "DATE")):
+                return (f"C01/na/{p['PGN']}.{f['Id']}", f"{sfx} field {f['Id']}: not-available pattern reported as {mf.raw_value!r}")
+        elif e[0] == "num":
+            val = e[1]
+            got = mf.raw_value
+            if got is None:
+                return (f"C01/value/{p['PGN']}.{f['Id']}", f"{sfx} field {f['Id']}: raw {e[3]} reported as no value")
+            if "Offset" in f and frac(got) != val and abs(frac(got) - val) > abs(val) / 2 ** 48:
+                return (f"C01/offset-ignored/{p['PGN']}.{f['Id']}", f"{sfx} field {f['Id']}: raw {e[3]} reported as {got!r}, database (with Offset {f['Offset']}) says {float(val)}")
+            if abs(frac(got) - val) > abs(val) / 2 ** 48:
+                return (f"C01/value/{p['PGN']}.{f['Id']}", f"{sfx} field {f['Id']}: raw {e[3]} reported as {got!r}, database says {float(val)}")
+        elif e[0] == "lookup":
+            if mf.raw_value != e[1] or mf.value != e[2]:
+                return (f"C01/lookup/{p['PGN']}.{f['Id']}", f"{sfx} field {f['Id']}: bits {e[1]} reported as {mf.value!r}/{mf.raw_value!r}, database says {e[2]!r}")
+        elif e[0] == "raw":
+            if mf.raw_value != e[1] or mf.value != e[1]:
+                return (f"C01/raw/{p['PGN']}.{f['Id']}", f"{sfx} field {f['Id']}: bits {e[1]} reported as {mf.value!r}")
+    return None
+
+
+def _first_offset_field(p):
+    for f in p["Fields"]:
+        if "Offset" in f:
+            return f["Id"]
+    return None
+
+
+def oracle_search(ctx, per_def=None, limit=None):
+    """database-only oracle over every definition's boundary payloads; returns list of (key, what, sfx, payload)"""
+    harness.load_repo()
+    from nmea2000 import pgns
+    db = Db(ctx["repo"])
+    rnd = random.Random(ctx["seed"] + 43)
+    hits = {}
+    n = 0
+    for sfx, fn in decoder_functions(pgns):
+        p = db.defs.get(sfx)
+        if p is None:
+            continue
+        for x in payloads_for(p, rnd, True, 6):
+            n += 1
+            r = oracle_check(db, sfx, p, fn, x)
+            if r and r[0] not in hits:
+                hits[r[0]] = (r[0], r[1], sfx, x)
+    return list(hits.values()), n
